@@ -138,8 +138,14 @@ def playback(crate, harness, timeout=900):
         return None, 'playback timed out'
     finally:
         fcntl.flock(lock, fcntl.LOCK_UN); lock.close()
-    m = re.search(r'```\n(.*?)```', log, re.S)
-    return (m.group(1) if m else None), log[-4000:]
+    # one generated test per failing check AND per satisfied cover: take the first one that belongs to a failed assertion
+    blocks = re.findall(r'```\n(.*?)```', log, re.S)
+    pick = None
+    for b in blocks:
+        if re.search(r'Check for `(?!cover)', b):
+            pick = b; break
+    if pick is None and blocks: pick = blocks[0]
+    return pick, log[-4000:]
 
 
 def concrete_values(test_src):
